@@ -23,8 +23,20 @@
   Core Lean only (MW.Lemmas.SignVM and what it imports use no Mathlib).
 -/
 import MW.Lemmas.SignVM
+import MW.Model.Ledger
 namespace MW.Model.SignTab
 open MW MW.Model.Sign MW.Model.ScriptVM MW.Lemmas.SignVM MW.Lemmas.ScriptVMParse
+
+/-- script class of a ledger output as txscript.ExtractPkScriptAddrs sees it -/
+def clsOf : Ledger.Cls → Class
+  | .std => .std
+  | .stk f => .stk f
+  | .bindOld _ => .bind
+  | .bindNew _ => .bind
+  | .raw => .other
+
+/-- … and as the engine run treats it for a previous transaction at height `h` (warm-up height `warm`) -/
+def classAt (warm : Nat) (c : Ledger.Cls) (h : Nat) : Class := (clsOf c).atHeight warm h
 
 structure Tab where
   addrs : List (String × Bytes × Option Bytes) := []
